@@ -1385,3 +1385,150 @@ Proof.
   - intros i Hi Hne. destruct (Cconn i (proj1 (HN i) Hi) Hne) as [e0 [He0 Hx0]].
     destruct (proj2 (HE (e_from e0) (e_type e0) i)) as [e [He [_ [_ Hx]]]]; [exists e0; auto|]. exists e. auto.
 Qed.
+
+(* ---- per node: hashes, identifiers, external references (C02) -------------------------------------- *)
+From Verif Require Import Proofs.KvFacts.
+From Coq Require Import Sorted.
+
+Lemma zassoc_Some_In {A} k (l : list (Z * A)) v : zassoc k l = Some v -> In (k, v) l.
+Proof.
+  induction l as [|[k' v'] r IH]; simpl; [discriminate|].
+  destruct (Z.eqb k k') eqn:E; intros H.
+  - apply Z.eqb_eq in E. injection H as <-. subst. left. reflexivity.
+  - right. exact (IH H).
+Qed.
+
+Lemma zassoc_notin {A} k (l : list (Z * A)) : ~ In k (map fst l) -> zassoc k l = None.
+Proof.
+  induction l as [|[k' v'] r IH]; simpl; [reflexivity|]. intros H.
+  destruct (Z.eqb k k') eqn:E; [apply Z.eqb_eq in E; subst; exfalso; apply H; left; reflexivity|].
+  apply IH. intros H'. apply H. right. exact H'.
+Qed.
+
+Lemma cdx_algo_table_rt :
+  forallb (fun kv => (Z.eqb (slook cdx_hash_to_algo_tab 0 (snd kv)) (fst kv) && negb (Z.eqb (fst kv) 0))%bool) hash_to_cdx_tab = true.
+Proof. vm_compute. reflexivity. Qed.
+
+(* hashes CycloneDX can carry: unique algorithms (as in any map), sorted as the harness and protobuf
+   print them, every algorithm in the CycloneDX table *)
+Definition cdx_hash_class (hs : list (Z * string)) : Prop :=
+  ksorted hs /\ forall kv, In kv hs -> exists nm, zassoc (fst kv) hash_to_cdx_tab = Some nm.
+
+Lemma algo_rt a nm : zassoc a hash_to_cdx_tab = Some nm -> slook cdx_hash_to_algo_tab 0 nm = a /\ a <> 0.
+Proof.
+  intros H. apply zassoc_Some_In in H. pose proof cdx_algo_table_rt as T. rewrite forallb_forall in T.
+  specialize (T _ H). cbn [fst snd] in T. apply andb_true_iff in T as [T1 T2].
+  apply Z.eqb_eq in T1. apply negb_true_iff, Z.eqb_neq in T2. auto.
+Qed.
+
+Lemma comp_hashes_fold hs : forall acc,
+  (forall kv, In kv hs -> exists nm, zassoc (fst kv) hash_to_cdx_tab = Some nm) ->
+  NoDup (map fst (acc ++ hs)) ->
+  fold_left (fun acc h => let a := slook cdx_hash_to_algo_tab 0 (fst h) in
+                          if Z.eqb a 0 then acc
+                          else match zassoc a acc with Some _ => acc | None => acc ++ [(a, snd h)] end)
+            (cdx_hashes hs) acc = acc ++ hs.
+Proof.
+  induction hs as [|[a v] r IH]; intros acc Hc Hn; [cbn; rewrite app_nil_r; reflexivity|].
+  destruct (Hc (a, v) (or_introl eq_refl)) as [nm Hnm]. cbn [fst] in Hnm.
+  unfold cdx_hashes. cbn [flat_map fst snd]. rewrite Hnm. cbn [app fold_left fst snd].
+  destruct (algo_rt a nm Hnm) as [-> Hne]. apply Z.eqb_neq in Hne. rewrite Hne.
+  rewrite map_app in Hn. cbn [map fst] in Hn.
+  assert (Hna : ~ In a (map fst acc)).
+  { intros H. apply NoDup_app_inv in Hn as [_ [_ Hd]]. apply (Hd a H). left. reflexivity. }
+  rewrite (zassoc_notin a acc Hna).
+  fold (cdx_hashes r). rewrite IH.
+  - rewrite <- app_assoc. reflexivity.
+  - intros kv Hkv. apply Hc. right. exact Hkv.
+  - rewrite <- app_assoc. cbn [app]. rewrite map_app. cbn [map fst]. exact Hn.
+Qed.
+
+Theorem cdx_hashes_roundtrip hs : cdx_hash_class hs -> comp_hashes (cdx_hashes hs) = hs.
+Proof.
+  intros [Hs Hc]. unfold comp_hashes.
+  assert (Hn : NoDup (map fst ([] ++ hs))) by (cbn; apply ksorted_NoDup; exact Hs).
+  transitivity (kvsort ([] ++ hs)); [f_equal; exact (comp_hashes_fold hs [] Hc Hn)|].
+  cbn [app]. apply kvsort_sorted_id. exact Hs.
+Qed.
+
+Lemma filter_keys_notin a (acc : list (Z * string)) : ~ In a (map fst acc) -> filter (fun kv => negb (Z.eqb (fst kv) a)) acc = acc.
+Proof.
+  intros H. apply filter_all_true. intros kv Hkv. apply negb_true_iff, Z.eqb_neq. intros E. apply H. apply in_map_iff. exists kv. auto.
+Qed.
+
+Lemma xref_hashes_fold hs : forall acc,
+  (forall kv, In kv hs -> exists nm, zassoc (fst kv) hash_to_cdx_tab = Some nm) ->
+  NoDup (map fst (acc ++ hs)) ->
+  fold_left (fun acc h => let a := slook cdx_hash_to_algo_tab 0 (fst h) in
+                          (a, snd h) :: filter (fun kv => negb (Z.eqb (fst kv) a)) acc)
+            (cdx_hashes hs) acc = rev hs ++ acc.
+Proof.
+  induction hs as [|[a v] r IH]; intros acc Hc Hn; [reflexivity|].
+  destruct (Hc (a, v) (or_introl eq_refl)) as [nm Hnm]. cbn [fst] in Hnm.
+  unfold cdx_hashes. cbn [flat_map fst snd]. rewrite Hnm. cbn [app fold_left fst snd].
+  destruct (algo_rt a nm Hnm) as [-> _].
+  rewrite map_app in Hn. cbn [map fst] in Hn.
+  assert (Hna : ~ In a (map fst acc)).
+  { intros H. apply NoDup_app_inv in Hn as [_ [_ Hd]]. apply (Hd a H). left. reflexivity. }
+  rewrite (filter_keys_notin a acc Hna). fold (cdx_hashes r). rewrite IH.
+  - cbn [rev]. rewrite <- app_assoc. reflexivity.
+  - intros kv Hkv. apply Hc. right. exact Hkv.
+  - cbn [app map fst]. apply NoDup_app_inv in Hn as [Hn1 [Hn2 Hd]]. inversion Hn2 as [|? ? Hnr Hn2']; subst.
+    constructor.
+    + rewrite map_app. intros H. apply in_app_or in H as [H|H]; [exact (Hna H)|exact (Hnr H)].
+    + rewrite map_app. apply NoDup_app_intro; [exact Hn1|exact Hn2'|]. intros y Hy1 Hy2. apply (Hd y Hy1). right. exact Hy2.
+Qed.
+
+Theorem cdx_xref_hashes_roundtrip hs : cdx_hash_class hs -> xref_hashes (cdx_hashes hs) = hs.
+Proof.
+  intros [Hs Hc]. unfold xref_hashes.
+  assert (Hn : NoDup (map fst ([] ++ hs))) by (cbn; apply ksorted_NoDup; exact Hs).
+  transitivity (kvsort (rev hs ++ [])); [f_equal; exact (xref_hashes_fold hs [] Hc Hn)|].
+  rewrite app_nil_r. apply kvsort_unique; [exact Hs|apply Permutation_sym, Permutation_rev].
+Qed.
+
+Theorem cdx_node_hashes n cc : cdx_hash_class (n_hashes n) -> n_hashes (comp_to_node (node_to_comp n) cc) = n_hashes n.
+Proof. intros H. unfold comp_to_node, node_to_comp; cbn [n_hashes c_hashes]. apply cdx_hashes_roundtrip. exact H. Qed.
+
+(* package identifiers CycloneDX carries: a purl and/or a CPE 2.3 *)
+Definition cdx_ident_class (l : list (Z * string)) : Prop :=
+  l = [] \/
+  (exists p, p <> "" /\ l = [(SoftwareIdentifierType_PURL, p)]) \/
+  (exists c, c <> "" /\ String.prefix "cpe:2.3" c = true /\ l = [(SoftwareIdentifierType_CPE23, c)]) \/
+  (exists p c, p <> "" /\ c <> "" /\ String.prefix "cpe:2.3" c = true /\
+               l = [(SoftwareIdentifierType_PURL, p); (SoftwareIdentifierType_CPE23, c)]).
+
+Theorem cdx_node_identifiers n cc : cdx_ident_class (n_identifiers n) ->
+  n_identifiers (comp_to_node (node_to_comp n) cc) = n_identifiers n.
+Proof.
+  unfold comp_to_node, node_to_comp; cbn [n_identifiers c_purl c_cpe].
+  intros [E|[[p [Hp E]]|[[c [Hc [Hpre E]]]|[p [c [Hp [Hc [Hpre E]]]]]]]]; rewrite E.
+  - reflexivity.
+  - cbn. apply String.eqb_neq in Hp. rewrite Hp. reflexivity.
+  - cbn. apply String.eqb_neq in Hc. rewrite Hc, Hpre. reflexivity.
+  - cbn. apply String.eqb_neq in Hp, Hc. rewrite Hp, Hc, Hpre. reflexivity.
+Qed.
+
+(* external references CycloneDX carries: no authority, a type that has a CycloneDX counterpart of
+   its own, hashes of the class *)
+Definition extref_type_rt (t : Z) : bool :=
+  Z.eqb (slook cdx_extref_to_type_tab cdx_extref_to_type_default (zlook extref_to_cdx_tab extref_to_cdx_default t)) t.
+
+Definition cdx_extref_class (x : extref) : Prop :=
+  x_authority x = "" /\ extref_type_rt (x_type x) = true /\ cdx_hash_class (x_hashes x).
+
+Theorem cdx_node_external_references n cc : Forall cdx_extref_class (n_external_references n) ->
+  n_external_references (comp_to_node (node_to_comp n) cc) = n_external_references n.
+Proof.
+  intros H. unfold comp_to_node, node_to_comp; cbn [n_external_references c_xrefs]. rewrite map_map.
+  rewrite <- (map_id (n_external_references n)) at 2. apply map_ext_in. intros x Hx.
+  rewrite Forall_forall in H. destruct (H x Hx) as [Ha [Ht Hh]].
+  cbn [cx_url cx_comment cx_hashes cx_type]. rewrite (cdx_xref_hashes_roundtrip _ Hh).
+  unfold extref_type_rt in Ht. apply Z.eqb_eq in Ht. rewrite Ht.
+  destruct x as [u c a hs t]. cbn [x_url x_comment x_authority x_hashes x_type] in *. subst a. reflexivity.
+Qed.
+
+(* how many external reference types have a CycloneDX counterpart of their own *)
+Lemma extref_types_with_counterpart :
+  length (filter extref_type_rt ExternalReference_ExternalReferenceType_values) = 39%nat.
+Proof. vm_compute. reflexivity. Qed.
